@@ -41,6 +41,18 @@ pub fn label_bytes(class: u64) -> &'static [u8] {
     }
 }
 
+/// the caller-supplied transcript for a context class: classes 0/1 differ in the label; class 2 has label 0 plus a
+/// message the caller absorbed before handing the transcript over (context is state, not only a label)
+pub fn mk_transcript(class: u64) -> Transcript {
+    if class == 2 {
+        let mut t = Transcript::new(label_bytes(0));
+        t.append_message(b"caller context", b"an earlier protocol step");
+        t
+    } else {
+        Transcript::new(label_bytes(class))
+    }
+}
+
 pub fn alt_point(tag: &str, k: u64) -> P {
     P::hash_from_bytes_sha3_512(format!("bppv-alt-{}-{}", tag, k).as_bytes())
 }
@@ -403,7 +415,7 @@ pub fn run_scenario(
                     merlin::trace::start();
                     grec_start();
                 }
-                let mut tr = Transcript::new(label_bytes(label));
+                let mut tr = mk_transcript(label);
                 let r = catch_unwind(AssertUnwindSafe(|| RangeProof::<P>::prove_with_rng(&mut tr, &stmt, &w, &mut ext)));
                 let (mev, gev) = if rec.is_some() { (merlin::trace::stop(), grec_stop()) } else { (vec![], Default::default()) };
                 match r {
@@ -536,7 +548,7 @@ pub fn run_scenario(
             merlin::trace::start();
             grec_start();
         }
-        let mut btr: Vec<Transcript> = built.iter().map(|b| Transcript::new(label_bytes(b.label))).collect();
+        let mut btr: Vec<Transcript> = built.iter().map(|b| mk_transcript(b.label)).collect();
         let r = catch_unwind(AssertUnwindSafe(|| RangeProof::<P>::verify_batch(&mut btr, &bst, &orig_proofs, VerifyAction::VerifyOnly)));
         let (mev, gev) = if rec.is_some() { (merlin::trace::stop(), grec_stop()) } else { (vec![], Default::default()) };
         let bres = match r {
@@ -627,7 +639,7 @@ pub fn run_scenario(
         merlin::trace::start();
         grec_start();
     }
-    let mut transcripts: Vec<Transcript> = labels.iter().map(|l| Transcript::new(label_bytes(*l))).collect();
+    let mut transcripts: Vec<Transcript> = labels.iter().map(|l| mk_transcript(*l)).collect();
     while stmts.len() < resize(skew[0]) {
         stmts.push(stmts.last().unwrap().clone());
     }
